@@ -204,23 +204,50 @@ fn payload(seq: u32, size: usize) -> Vec<u8> {
     (0..n).map(|i| (seq as usize * 31 + i * 7) as u8).collect()
 }
 
+#[derive(Event, Serialize, Deserialize, Clone, Debug, PartialEq)]
+struct UpA(u8);
+#[derive(Event, Serialize, Deserialize, Clone, Debug, PartialEq)]
+struct UpB(u8);
+#[derive(Event, Serialize, Deserialize, Clone, Debug, PartialEq)]
+struct UpC(u8);
+
+/// When set, the Apps register more client channels than server channels (one server event,
+/// six client events), so that the client channels used by the bursts have ids no server
+/// channel has.
+static UP_HEAVY: std::sync::atomic::AtomicBool = std::sync::atomic::AtomicBool::new(false);
+
 fn build_app() -> App {
     let mut app = App::new();
     app.init_resource::<Time>().add_plugins((
         RepliconPlugins.set(ServerPlugin { tick_policy: TickPolicy::EveryFrame, ..Default::default() }),
         RepliconExampleBackendPlugins,
     ));
-    app.add_server_event::<Down0>(Channel::Ordered)
-        .make_event_independent::<Down0>()
-        .add_server_event::<Down1>(Channel::Ordered)
-        .make_event_independent::<Down1>()
-        .add_server_event::<Down2>(Channel::Unordered)
-        .make_event_independent::<Down2>()
-        .add_client_event::<Up0>(Channel::Ordered)
-        .add_client_event::<Up1>(Channel::Ordered)
-        .add_server_event::<DownEmpty>(Channel::Ordered)
-        .make_event_independent::<DownEmpty>()
-        .add_client_event::<UpEmpty>(Channel::Ordered)
+    if UP_HEAVY.load(std::sync::atomic::Ordering::SeqCst) {
+        app.add_server_event::<Down0>(Channel::Ordered)
+            .make_event_independent::<Down0>()
+            .add_event::<Down1>()
+            .add_event::<Down2>()
+            .add_event::<DownEmpty>()
+            .add_client_event::<UpA>(Channel::Ordered)
+            .add_client_event::<UpB>(Channel::Unordered)
+            .add_client_event::<UpC>(Channel::Ordered)
+            .add_client_event::<Up0>(Channel::Ordered)
+            .add_client_event::<Up1>(Channel::Ordered)
+            .add_client_event::<UpEmpty>(Channel::Ordered);
+    } else {
+        app.add_server_event::<Down0>(Channel::Ordered)
+            .make_event_independent::<Down0>()
+            .add_server_event::<Down1>(Channel::Ordered)
+            .make_event_independent::<Down1>()
+            .add_server_event::<Down2>(Channel::Unordered)
+            .make_event_independent::<Down2>()
+            .add_client_event::<Up0>(Channel::Ordered)
+            .add_client_event::<Up1>(Channel::Ordered)
+            .add_server_event::<DownEmpty>(Channel::Ordered)
+            .make_event_independent::<DownEmpty>()
+            .add_client_event::<UpEmpty>(Channel::Ordered);
+    }
+    app
         .add_systems(Update, |mut a: EventReader<DownEmpty>, mut b: EventReader<FromClient<UpEmpty>>, mut got: ResMut<Got>| {
             for _ in a.read() {
                 got.0.push((3, 0, Vec::new()));
@@ -942,6 +969,30 @@ fn loopback_part(tier: Tier, out: &mut Outcome, bad: &mut Vec<Bad>) {
             }
         }
     }
+    // more client channels than server channels: client -> server bursts on channel ids that no
+    // server channel has
+    UP_HEAVY.store(true, std::sync::atomic::Ordering::SeqCst);
+    for &(n, size) in &[(1usize, 2usize), (3, 2), (4, 130)] {
+        let result = match run_burst(n, size, true, false) {
+            Ok(None) => None,
+            other => Some(other),
+        };
+        runs += 1;
+        match result {
+            None => inconclusive += 1,
+            Some(Ok(Some(d))) => {
+                outcomes.insert(6_000_000 + d);
+            }
+            Some(Ok(None)) => unreachable!(),
+            Some(Err(e)) => bad.push(Bad {
+                oracle: if e.starts_with("bind") || e.starts_with("connect") { "socket" } else if e.contains("STALL") { "loopback-stalled" } else { "loopback-order" },
+                case: format!("{n} messages of {size} bytes, client -> server, with more client channels than server channels"),
+                detail: e,
+                replay: json!({"kind": "loopback", "n": n, "size": size, "upstream": true, "up_heavy": true}),
+            }),
+        }
+    }
+    UP_HEAVY.store(false, std::sync::atomic::Ordering::SeqCst);
     // the server sends before the client app's first frame with the socket
     for &n in &counts {
         for &size in &[2usize, 130] {
@@ -1352,6 +1403,7 @@ pub fn replay(doc: &serde_json::Value) -> i32 {
         run_history(&ops).map(|_| ())
     } else {
         let (n, size, up) = (doc["n"].as_u64().unwrap() as usize, doc["size"].as_u64().unwrap() as usize, doc["upstream"].as_bool().unwrap());
+        UP_HEAVY.store(doc["up_heavy"].as_bool().unwrap_or(false), std::sync::atomic::Ordering::SeqCst);
         if let Some(split) = doc["split"].as_u64() {
             let (n, size, up) = (doc["n"].as_u64().unwrap() as usize, doc["size"].as_u64().unwrap() as usize, doc["upstream"].as_bool().unwrap());
             println!("relayed burst: {n} messages of {size} bytes, upstream {up}, split after {split} bytes");
